@@ -30,6 +30,12 @@ var (
 func Open(path string) (*Database, error) {
 	db, err := badger.Open(badger.DefaultOptions(path))
 	if err != nil {
+		// After an unclean shutdown badger can fail once: a value log file that was created
+		// but not yet initialised when the process died is only set up by that failed attempt
+		// ("Open existing file ... error: Create a new file"). Try a second time before giving up.
+		db, err = badger.Open(badger.DefaultOptions(path))
+	}
+	if err != nil {
 		return nil, fmt.Errorf("failed to open database: %w", err)
 	}
 	return &Database{
